@@ -82,7 +82,7 @@ def run(ctx):
 
     # 63-bit sweep (code -> spec): the harness logs the digit structure of what the SDK printed
     big = [dict(op="big", **{"def": d}, seed=ctx.seed * 1000 + i, count=(4000 if thorough else 400))
-           for i, d in enumerate(["bytes", "nanos", "sec", "pct", "chr", "gk", "g73", "g12", "gcs"])]
+           for i, d in enumerate(["bytes", "nanos", "sec", "pct", "chr", "gk", "g73", "g12", "gcs", "gfm"])]
     bpath = os.path.join(ctx.tmp, "units-big.ndjson")
     bcases, bres = run_vectors(ctx, bpath, big)
     trace = consume(ctx, bcases, bres)
